@@ -112,20 +112,33 @@ LocalityNd ==
     /\ \A i \in 1..Len(E.moves) : LET x == E.moves[i][1] IN
           \A j \in 1..Len(E.moves[i][3]) : LET y == E.moves[i][3][j][1] IN
               \A k \in 1..D : IF x[k] % 2 = 1 THEN y[k] = x[k] ELSE y[k] \in {x[k] - 1, x[k] + 1}
+\* a slice of several jumps: running sums of the jumps coupled one by one with the same uniforms
+SliceOK(sl) == /\ Len(sl.slice) = Len(sl.single)
+               /\ \A k \in 1..Len(sl.single) : \A c \in 1..D :
+                      sl.slice[k][c] = SumSeq([i \in 1..k |-> sl.single[i][c]])
+SlicesOK == \A i \in 1..Len(E.slices) : SliceOK(E.slices[i])
 CoarseIsPreviousNd ==
     IF E.lvl = 0 THEN TRUE
     ELSE prevLvl # <<>> /\ E.dmC = prevLvl.dmF /\ E.muC = prevLvl.muF /\ E.muF = E.muProc
+\* Brownian increments of dimension j: (j * <<1, 2, -4>>); cumulative diffusion of row k divided by the cumulated base
+\* increments = sum_j D[k][j] * j for the matrix D of the component
 SameBrownianNd ==
     E.lvl = 0 \/ (/\ Len(E.diffF) = D /\ Len(E.diffC) = D
-                  /\ \A k \in 1..D : \A i \in 1..3 : E.diffF[k][i] = E.dmF[k][k] /\ E.diffC[k][i] = E.dmC[k][k])
+                  /\ \A k \in 1..D : \A i \in 1..3 : E.diffF[k][i] = E.wsF[k] /\ E.diffC[k][i] = E.wsC[k])
 LevelNdStep ==
     /\ More /\ E.e = "LevelNd"
     /\ Judge(<< <<"Numeric", E.bad = 0>>,
                 <<"GridNested", E.bad # 0 \/ GridNestedNd>>,
                 <<"Telescoping", E.bad # 0 \/ E.lvl = 0 \/ ~GridNestedNd \/ TelescopingNd>>,
                 <<"Locality", E.bad # 0 \/ E.lvl = 0 \/ LocalityNd>>,
+                <<"CouplingIsFunctionOfJumpAndUniform", E.bad # 0 \/ SlicesOK>>,
                 <<"CoarseIsPrevious", E.bad # 0 \/ CoarseIsPreviousNd>>,
                 <<"SameBrownian", E.bad # 0 \/ SameBrownianNd>> >>)
+    /\ prevLvl' = E /\ ln' = ln + 1 /\ UNCHANGED <<tid, fin>>
+CoefNdStep ==
+    /\ More /\ E.e = "CoefNd"
+    /\ Judge(<< <<"CoarseIsPrevious", CoarseIsPreviousNd>>,
+                <<"SameBrownian", SameBrownianNd>> >>)
     /\ prevLvl' = E /\ ln' = ln + 1 /\ UNCHANGED <<tid, fin>>
 \* SDE coupling: the driver's coarse coefficient and drift at level l are the fine ones of level l-1
 SdeStep ==
@@ -143,6 +156,6 @@ Finish ==
     /\ ~fin /\ ln = Len(T) + 1
     /\ IF bad = 0 THEN PrintT(<<"ACCEPT", Id>>) ELSE TRUE
     /\ fin' = TRUE /\ UNCHANGED <<tid, ln, bad, prevLvl>>
-TraceNext == LevelStep \/ LevelNdStep \/ SdeStep \/ RaiseStep \/ Finish
+TraceNext == LevelStep \/ LevelNdStep \/ CoefNdStep \/ SdeStep \/ RaiseStep \/ Finish
 TraceSpec == TraceInit /\ [][TraceNext]_tvars
 =============================================================================
